@@ -66,6 +66,9 @@ def ev_row(case, rec):
         if not (-2830000 <= d['east'] <= 3830000 and 0 <= d['north'] <= 10000000):
             rec.skip('forward image outside the accepted easting/northing range')
             continue
+        if case['prj'] != 'isg' and not (1 <= d['zone'] <= 60):
+            rec.skip('zone label beyond 60: outside the domain of the inverse conversion')
+            continue
         st, r = rec.call(grid2geo, d['zone'], d['east'], d['north'], d['hemi'], ell, prj)
         if st != 'ok':
             rec.fail('grid2geo raised on the image of a valid position', site='convert:grid2geo', observed=r, case=one, coords=co)
